@@ -19,7 +19,17 @@ Inductive vkind :=
 | VUnsubUnder          (* C08: unsubscribe failed although enough direct subscriptions were held *)
 | VBadCount            (* C08: invalid count accepted / valid count answered invalidParams *)
 | VLedger              (* C08: at quiescence the gateway's direct count differs from the ledger *)
-| VUnsubEventNoDirect. (* C08/C06: unsubscribe event for a resource without direct subscription *)
+| VUnsubEventNoDirect  (* C08/C06: unsubscribe event for a resource without direct subscription *)
+| VGetWithoutSub       (* C09: get request for a resource without a standing event subscription *)
+| VCountMismatch       (* C09: at quiescence an entry's use count differs from its number of subscribers *)
+| VEvictQueue          (* C09: an unused entry is not waiting for eviction, or a used one is *)
+| VOrphanSub           (* C09: event subscription without cache entry or entry without event subscription *)
+| VServedUnsubscribed  (* C09: resource data served without a get since the event subscription was (re)made *)
+| VNotFreed            (* C09: with no clients and all timers fired, entries or event subscriptions remain *)
+| VConnLeft            (* C11: after a disconnect and quiescence the gateway still holds state for the connection *)
+| VRequestAfterClose   (* C11: a service request on behalf of a connection closed before the previous quiescent point *)
+| VSpuriousRefetch     (* C12: a loaded resource was re-fetched without a system reset matching it *)
+| VMissedRefetch.      (* C12: a system reset matched a loaded resource that was not re-fetched *)
 
 Record viol := { v_kind : vkind; v_c : conn; v_r : rid; v_pos : nat }.
 
@@ -30,30 +40,42 @@ Record mstate := {
   ptrs : list (conn * (rid * list nat));               (* C03: candidate positions of the next expected event *)
   viols : list viol;
   pos : nat;
-  gone : list conn                                      (* clients that closed their socket: they see no further frame *)
+  gone : list conn;                                     (* clients that closed their socket: they see no further frame *)
+  mqsubs : list rid;                                    (* resources with a standing event subscription *)
+  fetched : list rid;                                   (* resources fetched (get answered with content) under the standing subscription *)
+  connsubs : list conn;                                 (* connections with a standing conn-event subscription *)
+  settled_gone : list conn;                             (* closed connections for which a quiescent point has passed *)
+  accreq : list (nat * (conn * rid));                   (* access requests by request number *)
+  lastacc : list (conn * (rid * bool));                 (* latest access verdict per connection and resource (true = get granted) *)
+  resetting : list (rid * option nat);                  (* resources whose reset re-fetch is under way, with the re-fetch request once seen *)
+  due : list rid;                                       (* loaded resources matched by a system reset whose reset task has not started yet *)
+  task_open : option rid                                (* the reset task of this resource is being processed and has started nothing so far *)
 }.
 
 Definition mstate0 : mstate :=
-  {| clients := []; reqs := []; stream := []; ptrs := []; viols := []; pos := 0; gone := [] |}.
+  {| clients := []; reqs := []; stream := []; ptrs := []; viols := []; pos := 0; gone := []; mqsubs := []; fetched := []; connsubs := []; settled_gone := []; accreq := []; lastacc := []; resetting := []; due := []; task_open := None |}.
+
+Definition last_verdict (st : mstate) (c : conn) (r : rid) : option bool :=
+  match find (fun x => Nat.eqb (fst x) c && Nat.eqb (fst (snd x)) r) (lastacc st) with Some x => Some (snd (snd x)) | None => None end.
 
 Definition get_client (st : mstate) (c : conn) : client :=
   match lookup c (clients st) with Some cl => cl | None => client0 end.
 
 Definition set_client (st : mstate) (c : conn) (cl : client) : mstate :=
-  {| clients := set_k c cl (clients st); reqs := reqs st; stream := stream st; ptrs := ptrs st; viols := viols st; pos := pos st; gone := gone st |}.
+  {| clients := set_k c cl (clients st); reqs := reqs st; stream := stream st; ptrs := ptrs st; viols := viols st; pos := pos st; gone := gone st; mqsubs := mqsubs st; fetched := fetched st; connsubs := connsubs st; settled_gone := settled_gone st; accreq := accreq st; lastacc := lastacc st; resetting := resetting st; due := due st; task_open := task_open st |}.
 
 Definition add_viol (st : mstate) (k : vkind) (c : conn) (r : rid) : mstate :=
   {| clients := clients st; reqs := reqs st; stream := stream st; ptrs := ptrs st;
-     viols := viols st ++ [{| v_kind := k; v_c := c; v_r := r; v_pos := pos st |}]; pos := pos st; gone := gone st |}.
+     viols := viols st ++ [{| v_kind := k; v_c := c; v_r := r; v_pos := pos st |}]; pos := pos st; gone := gone st; mqsubs := mqsubs st; fetched := fetched st; connsubs := connsubs st; settled_gone := settled_gone st; accreq := accreq st; lastacc := lastacc st; resetting := resetting st; due := due st; task_open := task_open st |}.
 
 Definition set_reqs (st : mstate) (q : list (conn * (nat * (rkind * rid * Z)))) : mstate :=
-  {| clients := clients st; reqs := q; stream := stream st; ptrs := ptrs st; viols := viols st; pos := pos st; gone := gone st |}.
+  {| clients := clients st; reqs := q; stream := stream st; ptrs := ptrs st; viols := viols st; pos := pos st; gone := gone st; mqsubs := mqsubs st; fetched := fetched st; connsubs := connsubs st; settled_gone := settled_gone st; accreq := accreq st; lastacc := lastacc st; resetting := resetting st; due := due st; task_open := task_open st |}.
 Definition set_ptrs (st : mstate) (p : list (conn * (rid * list nat))) : mstate :=
-  {| clients := clients st; reqs := reqs st; stream := stream st; ptrs := p; viols := viols st; pos := pos st; gone := gone st |}.
+  {| clients := clients st; reqs := reqs st; stream := stream st; ptrs := p; viols := viols st; pos := pos st; gone := gone st; mqsubs := mqsubs st; fetched := fetched st; connsubs := connsubs st; settled_gone := settled_gone st; accreq := accreq st; lastacc := lastacc st; resetting := resetting st; due := due st; task_open := task_open st |}.
 Definition set_stream (st : mstate) (s : list (rid * list sevent)) : mstate :=
-  {| clients := clients st; reqs := reqs st; stream := s; ptrs := ptrs st; viols := viols st; pos := pos st; gone := gone st |}.
+  {| clients := clients st; reqs := reqs st; stream := s; ptrs := ptrs st; viols := viols st; pos := pos st; gone := gone st; mqsubs := mqsubs st; fetched := fetched st; connsubs := connsubs st; settled_gone := settled_gone st; accreq := accreq st; lastacc := lastacc st; resetting := resetting st; due := due st; task_open := task_open st |}.
 Definition bump (st : mstate) : mstate :=
-  {| clients := clients st; reqs := reqs st; stream := stream st; ptrs := ptrs st; viols := viols st; pos := S (pos st); gone := gone st |}.
+  {| clients := clients st; reqs := reqs st; stream := stream st; ptrs := ptrs st; viols := viols st; pos := S (pos st); gone := gone st; mqsubs := mqsubs st; fetched := fetched st; connsubs := connsubs st; settled_gone := settled_gone st; accreq := accreq st; lastacc := lastacc st; resetting := resetting st; due := due st; task_open := task_open st |}.
 
 Definition stream_of (st : mstate) (r : rid) : list sevent :=
   match lookup r (stream st) with Some s => s | None => [] end.
@@ -95,7 +117,13 @@ Definition prune_ptrs (st : mstate) (c : conn) : mstate :=
 Fixpoint skip_reaccess (s : list sevent) (p : nat) (fuel : nat) : nat :=
   match fuel with
   | O => p
-  | S f => match nth_error s p with Some SReaccess => skip_reaccess s (S p) f | _ => p end
+  | S f => match nth_error s p with Some (SReaccess | SSkipped | SMark | SNop) => skip_reaccess s (S p) f | _ => p end
+  end.
+
+Fixpoint skip_marks (s : list sevent) (p : nat) (fuel : nat) : nat :=
+  match fuel with
+  | O => p
+  | S f => match nth_error s p with Some (SReaccess | SSkipped | SResetEnd | SMark | SNop) => skip_marks s (S p) f | _ => p end
   end.
 
 Definition ev_match (s d : sevent) : bool :=
@@ -118,11 +146,19 @@ Definition deliver (st : mstate) (c : conn) (r : rid) (d : sevent) : mstate :=
   | None => st      (* not handed over: reported as stray event by the C02 part *)
   | Some cands =>
       let s := stream_of st r in
-      let step p := let p' := skip_reaccess s p (length s) in
-                    match nth_error s p' with
-                    | Some e => if ev_match e d then [S p'] else []
-                    | None => []
-                    end in
+      let is_state := match d with SChange _ | SAdd _ _ | SRemove _ | SDelete => true | _ => false end in
+      let fix adv (fuel p : nat) : list nat :=
+        match fuel with
+        | O => []
+        | S f =>
+            let p' := skip_reaccess s p (length s) in
+            match nth_error s p' with
+            | Some SResetEnd => (if is_state then [p'] else []) ++ adv f (S p')   (* a derived event, or move past the marker *)
+            | Some e => if ev_match e d then [S p'] else []
+            | None => []
+            end
+        end in
+      let step p := adv (S (length s)) p in
       let cands' := flat_map step cands in
       match cands' with
       | [] => put_ptrs (add_viol st VGap c r) c r (seq 0 (S (length s)))   (* report once, then resynchronise *)
@@ -150,7 +186,22 @@ Definition finish_frame (st : mstate) (c : conn) : mstate :=
   let st := set_client st c (collect (pending_of st c) (get_client st c)) in
   prune_ptrs st c.
 
+Definition check_served_hook (st : mstate) (c : conn) (rs : rset) : mstate :=
+  fold_left (fun s x => match snd x with
+                        | RErr _ => s
+                        | _ => if mem (fst x) (fetched s)
+                                  || existsb (fun e => match e with SDelete => true | _ => false end)
+                                             (match lookup (fst x) (stream s) with Some l => l | None => [] end)
+                               then s   (* fetched under the standing subscription, or the service announced its deletion
+                                           (the gateway then drops the entry while connections still hold the snapshot) *)
+                               else {| clients := clients s; reqs := reqs s; stream := stream s; ptrs := ptrs s;
+                                       viols := viols s ++ [{| v_kind := VServedUnsubscribed; v_c := c; v_r := fst x; v_pos := pos s |}];
+                                       pos := pos s; gone := gone s; mqsubs := mqsubs s; fetched := fetched s;
+                                       connsubs := connsubs s; settled_gone := settled_gone s; accreq := accreq s; lastacc := lastacc s; resetting := resetting s; due := due s; task_open := task_open s |}
+                        end) rs st.
+
 Definition merge_into (st : mstate) (c : conn) (rs : rset) : mstate :=
+  let st := check_served_hook st c rs in
   let cl := get_client st c in
   handover_set (set_client st c (with_held cl (merge_set rs (held cl)))) c rs.
 
@@ -199,9 +250,11 @@ Definition on_resp (st : mstate) (c : conn) (id : nat) (ok : bool) (rs : rset) (
           | Some r' =>
               let st := merge_into st c rs in
               let cl := get_client st c in
-              (* a resource response subscribes the client unless the resource itself came as an error entry *)
+              (* a resource response subscribes the client, unless the resource came as an error entry because the
+                 access request for it was not granted (then the client is left without direct subscription) *)
               let is_err := match lookup r' rs with Some (RErr _) => true | _ => false end in
-              let cl := if is_err then cl else with_direct cl r' (S (dcount cl r')) in
+              let denied := match last_verdict st c r' with Some false => true | _ => false end in
+              let cl := if is_err && denied then cl else with_direct cl r' (S (dcount cl r')) in
               finish_frame (set_client st c cl) c
           | None => st
           end
@@ -228,10 +281,55 @@ Definition frame_conn (e : tev) : option conn :=
   end.
 
 Definition set_gone (st : mstate) (c : conn) : mstate :=
-  {| clients := clients st; reqs := reqs st; stream := stream st; ptrs := ptrs st; viols := viols st; pos := pos st; gone := c :: gone st |}.
+  {| clients := clients st; reqs := reqs st; stream := stream st; ptrs := ptrs st; viols := viols st; pos := pos st; gone := c :: gone st; mqsubs := mqsubs st; fetched := fetched st; connsubs := connsubs st; settled_gone := settled_gone st; accreq := accreq st; lastacc := lastacc st; resetting := resetting st; due := due st; task_open := task_open st |}.
+
+Definition set_cache (st : mstate) (ms fs : list rid) : mstate :=
+  {| clients := clients st; reqs := reqs st; stream := stream st; ptrs := ptrs st; viols := viols st; pos := pos st;
+     gone := gone st; mqsubs := ms; fetched := fs; connsubs := connsubs st; settled_gone := settled_gone st; accreq := accreq st; lastacc := lastacc st; resetting := resetting st; due := due st; task_open := task_open st |}.
+Definition set_conns (st : mstate) (cs sg : list conn) : mstate :=
+  {| clients := clients st; reqs := reqs st; stream := stream st; ptrs := ptrs st; viols := viols st; pos := pos st;
+     gone := gone st; mqsubs := mqsubs st; fetched := fetched st; connsubs := cs; settled_gone := sg; accreq := accreq st; lastacc := lastacc st; resetting := resetting st; due := due st; task_open := task_open st |}.
+Definition set_acc (st : mstate) (ar : list (nat * (conn * rid))) (la : list (conn * (rid * bool))) : mstate :=
+  {| clients := clients st; reqs := reqs st; stream := stream st; ptrs := ptrs st; viols := viols st; pos := pos st;
+     gone := gone st; mqsubs := mqsubs st; fetched := fetched st; connsubs := connsubs st; settled_gone := settled_gone st; accreq := ar; lastacc := la; resetting := resetting st; due := due st; task_open := task_open st |}.
+Definition set_reset (st : mstate) (rs : list (rid * option nat)) (du : list rid) (tk : option rid) : mstate :=
+  {| clients := clients st; reqs := reqs st; stream := stream st; ptrs := ptrs st; viols := viols st; pos := pos st;
+     gone := gone st; mqsubs := mqsubs st; fetched := fetched st; connsubs := connsubs st; settled_gone := settled_gone st;
+     accreq := accreq st; lastacc := lastacc st; resetting := rs; due := du; task_open := tk |}.
+Definition set_resetting (st : mstate) (rs : list (rid * option nat)) : mstate := set_reset st rs (due st) (task_open st).
+Definition remove_rid (r : rid) (l : list rid) : list rid := filter (fun x => negb (Nat.eqb x r)) l.
+
+
+(* the oldest unprocessed reset mark of resource r is processed: it becomes SNop; when the reset starts, the state
+   events that reached the gateway after the mark are superseded *)
+Fixpoint resolve_mark (started : bool) (l : list sevent) : option (list sevent) :=
+  match l with
+  | [] => None
+  | SMark :: l' =>
+      Some (SNop :: (if started then map (fun e => match e with SChange _ | SAdd _ _ | SRemove _ | SDelete => SSkipped | _ => e end) l' else l'))
+  | e :: l' => match resolve_mark started l' with Some r => Some (e :: r) | None => None end
+  end.
+
+Definition window_open (st : mstate) (r : rid) : bool := existsb (fun x => Nat.eqb (fst x) r) (resetting st).
+
+Definition on_reset_task (st : mstate) (r : rid) (started : bool) (noop : bool) : mstate :=
+  match resolve_mark (started && negb (window_open st r)) (stream_of st r) with
+  | None => let st := set_reset st (resetting st) (due st) None in
+            if started then add_viol st VSpuriousRefetch 0 r else st
+  | Some l' =>
+      let st := set_stream st (set_k r l' (stream st)) in
+      if started then set_reset st ((r, None) :: filter (fun x => negb (Nat.eqb (fst x) r)) (resetting st)) (remove_rid r (due st)) None
+      else if noop then set_reset st (resetting st) (remove_rid r (due st)) None
+      else set_reset st (resetting st) (due st) None
+  end.
 
 Definition step (st : mstate) (e : tev) : mstate :=
   let st := bump st in
+  (* a reset task that started nothing by the time the next task is granted had no loaded resource to reset *)
+  let st := match e, task_open st with
+            | TSched _, Some r => on_reset_task st r false false
+            | _, _ => st
+            end in
   if match frame_conn e with Some c => mem c (gone st) | None => false end then st else
   match e with
   | TConn c => set_client st c client0
@@ -285,8 +383,21 @@ Definition step (st : mstate) (e : tev) : mstate :=
       let cl := get_client st c in
       let st := if Nat.eqb (dcount cl r) 0 then add_viol st VUnsubEventNoDirect c r else st in
       finish_frame (set_client st c (with_direct cl r 0)) c
-  | TMqEv r ev => set_stream st (set_k r (stream_of st r ++ [ev]) (stream st))
-  | TQ truth subs =>
+  | TMqEv r ev =>
+      let in_window := window_open st r in
+      let ev' := match ev with
+                 | SChange _ | SAdd _ _ | SRemove _ | SDelete => if in_window then SSkipped else ev
+                 | _ => ev
+                 end in
+      set_stream st (set_k r (stream_of st r ++ [ev']) (stream st))
+  | TSysReset res _ =>
+      (* every subscribed resource matched by the reset gets a mark in its stream; a loaded one is due for a re-fetch *)
+      fold_left (fun s r =>
+        if mem r (mqsubs s) then
+          let s := set_stream s (set_k r (stream_of s r ++ [SMark]) (stream s)) in
+          if mem r (fetched s) && negb (mem r (due s)) then set_reset s (resetting s) (r :: due s) (task_open s) else s
+        else s) res st
+  | TQ truth subs ents final =>
       (* C07: nothing outstanding *)
       let st := fold_left (fun s x => add_viol s VUnanswered (fst x) (fst (snd x))) (reqs st) st in
       (* C01: every retained, non-deleted, non-error resource equals the service's state *)
@@ -311,18 +422,83 @@ Definition step (st : mstate) (e : tev) : mstate :=
                   let '(c, (r, cands)) := x in
                   let str := stream_of s r in
                   if mem r (deleted (get_client s c)) then s else
-                  if existsb (fun p => Nat.eqb (skip_reaccess str p (length str)) (length str)) cands then s
+                  if existsb (fun p => Nat.eqb (skip_marks str p (length str)) (length str)) cands then s
                   else add_viol s VMissingAtQ c r) (ptrs st) st in
       (* C08: the gateway's direct counts equal the ledger *)
       let st := fold_left (fun s ss =>
                   if Nat.eqb (ss_direct ss) (dcount (get_client s (ss_c ss)) (ss_r ss)) then s
                   else add_viol s VLedger (ss_c ss) (ss_r ss)) subs st in
-      fold_left (fun s cc =>
+      let st := fold_left (fun s cc =>
                   let '(c, cl) := cc in
                   fold_left (fun s' dr =>
                     if Nat.eqb (snd dr) 0 then s' else
                     if existsb (fun ss => Nat.eqb (ss_c ss) c && Nat.eqb (ss_r ss) (fst dr)) subs then s'
-                    else add_viol s' VLedger c (fst dr)) (direct cl) s) (clients st) st
+                    else add_viol s' VLedger c (fst dr)) (direct cl) s) (clients st) st in
+      (* C09: entry accounting at quiescence (nothing in flight): count = subscribers; unused <-> waiting for eviction;
+         entries and event subscriptions coincide *)
+      let st := fold_left (fun s en =>
+                  let s := if Z.eqb (se_count en) (Z.of_nat (se_nsubs en)) then s else add_viol s VCountMismatch 0 (se_r en) in
+                  let s := if Bool.eqb (Z.eqb (se_count en) 0) (se_evict en) then s else add_viol s VEvictQueue 0 (se_r en) in
+                  (* an entry without event subscription (created for a request only, or whose subscribe failed) has no subscribers *)
+                  if (se_mqsub en && mem (se_r en) (mqsubs s)) || (negb (se_mqsub en) && negb (mem (se_r en) (mqsubs s)) && Nat.eqb (se_nsubs en) 0)
+                  then s else add_viol s VOrphanSub 0 (se_r en)) ents st in
+      let st := fold_left (fun s r => if existsb (fun en => Nat.eqb (se_r en) r) ents then s else add_viol s VOrphanSub 0 r) (mqsubs st) st in
+      let st := if final then
+                  match ents, mqsubs st with
+                  | [], [] => st
+                  | en :: _, _ => add_viol st VNotFreed 0 (se_r en)
+                  | [], r :: _ => add_viol st VNotFreed 0 r
+                  end
+                else st in
+      (* C12: every loaded resource matched by a reset has been re-fetched *)
+      let st := fold_left (fun s r => add_viol s VMissedRefetch 0 r) (due st) st in
+      let st := set_reset st [] [] None in
+      (* C11: nothing is left of a closed connection *)
+      let st := fold_left (fun s c =>
+                  let s := if existsb (fun ss => Nat.eqb (ss_c ss) c) subs then add_viol s VConnLeft c 0 else s in
+                  if mem c (connsubs s) then add_viol s VConnLeft c 1 else s) (gone st) st in
+      set_conns st (connsubs st) (gone st)
+  | TMqSub r => set_cache st (r :: remove_rid r (mqsubs st)) (remove_rid r (fetched st))
+  | TMqUnsub r => set_cache st (remove_rid r (mqsubs st)) (remove_rid r (fetched st))
+  | TMqReq n t r c tok _ =>
+      let st := match t, c with
+                | MAccess, Some c' => set_acc st ((n, (c', r)) :: accreq st) (lastacc st)
+                | _, _ => st
+                end in
+      let st := match t with
+                | MGet =>
+                    let st := if mem r (mqsubs st) then st else add_viol st VGetWithoutSub 0 r in
+                    if existsb (fun x => Nat.eqb (fst x) r && match snd x with None => true | Some _ => false end) (resetting st)
+                    then set_resetting st (map (fun x => if Nat.eqb (fst x) r then (r, Some n) else x) (resetting st))
+                    else if mem r (fetched st) then add_viol st VSpuriousRefetch 0 r else st
+                | _ => st
+                end in
+      match c with
+      | Some c' => if mem c' (settled_gone st) then add_viol st VRequestAfterClose c' r else st
+      | None => st
+      end
+  | TMqResp n r (OGet d) =>
+      let st := if mem r (mqsubs st) then set_cache st (mqsubs st) (r :: remove_rid r (fetched st)) else st in
+      if existsb (fun x => Nat.eqb (fst x) r && match snd x with Some m => Nat.eqb m n | None => false end) (resetting st)
+      then set_stream (set_resetting st (filter (fun x => negb (Nat.eqb (fst x) r)) (resetting st)))
+                      (set_k r (stream_of st r ++ [SResetEnd]) (stream st))
+      else st
+  | TMqResp n r o =>
+      let st := if existsb (fun x => Nat.eqb (fst x) r && match snd x with Some m => Nat.eqb m n | None => false end) (resetting st)
+                then set_stream (set_resetting st (filter (fun x => negb (Nat.eqb (fst x) r)) (resetting st)))
+                                (set_k r (stream_of st r ++ [SResetEnd]) (stream st))
+                else st in
+      match lookup n (accreq st) with
+      | Some (c, r) =>
+          let v := match o with OAccess g _ => g | _ => false end in
+          set_acc st (accreq st) ((c, (r, v)) :: filter (fun x => negb (Nat.eqb (fst x) c && Nat.eqb (fst (snd x)) r)) (lastacc st))
+      | None => st
+      end
+  | TResetTask r => set_reset st (resetting st) (due st) (Some r)
+  | TResetStart r => on_reset_task st r true false
+  | TResetNoop r => on_reset_task st r false true
+  | TConnSub c => set_conns st (c :: connsubs st) (settled_gone st)
+  | TConnUnsub c => set_conns st (filter (fun x => negb (Nat.eqb x c)) (connsubs st)) (settled_gone st)
   | _ => st
   end.
 
